@@ -188,6 +188,11 @@ impl AssocFileData {
         self.scopes.depth() == 1
     }
 
+    /// Whether the code being parsed belongs to a function (or method) rather than to the top-level code of its file.
+    pub fn is_inside_function(&self) -> bool {
+        self.scopes.iter().any(|scope| scope.is_function())
+    }
+
     pub fn get_type_from_str(&self, ty: &str) -> TypeSearchResult {
         self.scopes.get_type_from_str(ty)
     }
